@@ -63,6 +63,8 @@ func outDir(style, pkg string, w *Work) (out, wantPkg string) {
 		return filepath.Join(w.Dir, "abs", pkg), pkg
 	case "dashed":
 		return "my-" + pkg, "my_" + pkg
+	case "dashed2":
+		return "my-gen-4-" + pkg, "my_gen_4_" + pkg // every '-' of the directory's base name becomes '_'
 	}
 	return pkg, pkg
 }
@@ -152,6 +154,9 @@ func checkC12(c *C12Case, rec *evid.Rec) (vs []pbt.Violation) {
 		if c.OutStyle == "dashed" {
 			out2 = filepath.Join("elsewhere", "my-"+pkg)
 		}
+		if c.OutStyle == "dashed2" {
+			out2 = filepath.Join("elsewhere", "my-gen-4-"+pkg)
+		}
 		_, failed2, _ := w.Generate(s, tm, out2)
 		checkedFiles := 0
 		if failed2 {
@@ -225,7 +230,7 @@ func checkC12(c *C12Case, rec *evid.Rec) (vs []pbt.Violation) {
 func TestC12Shipped(t *testing.T) {
 	rec := evid.New("C12/shipped")
 	var cases []*C12Case
-	for _, style := range []string{"relative", "nested", "absolute", "dashed"} {
+	for _, style := range []string{"relative", "nested", "absolute", "dashed", "dashed2"} {
 		cases = append(cases, &C12Case{Base: "fix44", OutStyle: style, Level: "driver", Twice: true, Dirty: style == "nested"})
 	}
 	bigLevel := "static"
@@ -253,7 +258,7 @@ func genC12(t *rapid.T) *C12Case {
 		}
 		c.Ops = append(c.Ops, Op{Kind: kind, A: rapid.IntRange(0, 100000).Draw(t, "a"), B: rapid.IntRange(0, 100000).Draw(t, "b"), C: rapid.IntRange(0, 100000).Draw(t, "c")})
 	}
-	c.OutStyle = rapid.SampledFrom([]string{"relative", "relative", "nested", "absolute", "dashed"}).Draw(t, "out")
+	c.OutStyle = rapid.SampledFrom([]string{"relative", "relative", "nested", "absolute", "dashed", "dashed2"}).Draw(t, "out")
 	c.Twice = rapid.IntRange(0, 2).Draw(t, "twice") == 0
 	c.Dirty = rapid.IntRange(0, 3).Draw(t, "dirty") == 0
 	return c
